@@ -548,7 +548,7 @@ def debug_buf_groups(tags=None, tier="quick"):
                 timeout=900, unwind=40, defines=D, tags=tags, cbmc_args=["--no-malloc-may-fail"], kind="lemma", min_obligations=100,
                 functions=["emit_init"])]
     tu, fmts = make_debug_fmt_tu()
-    maxlen = 10 if tier == "thorough" else 5
+    maxlen = 8 if tier == "thorough" else 5
     for k, (lit, specs) in enumerate(fmts):
         gs.append(Group(name=f"debug.emit_print.fmt{k}", srcs=[tu] + RG + ["repo:internal/common.c"], entry=f"h_fmt_{k}", no_dfcc=True,
                         timeout=900, unwind=64, object_bits=12, defines=D + [f"VP_FMT_MAXLEN={maxlen}"], tags=tags, cbmc_args=["--no-malloc-may-fail"], kind="bounded",
@@ -595,6 +595,28 @@ def note_tree_groups(tags=None):
                         "(parent earlier / later / equal / none), sequential execution of the real note.c + dll.c with the clock frozen",
                   min_obligations=100, functions=["note_notify_child", "nsync_note_free", "nsync_note_notify", "nsync_note_new", "nsync_note_expiry"])
             for h in ("h_tree_notify_middle", "h_tree_notify_root", "h_tree_free_middle", "h_tree_born_notified")]
+
+
+def note_conc_groups(tags=None, tier="quick"):
+    S = ["harness/note/note_conc.c", "rg/vp_rg.c", "rg/vp_clock_frozen.c", "rg/vp_stubs.c", "repo:internal/dll.c", "repo:platform/posix/src/time_rep.c"]
+    gs = []
+    shapes = (0, 1, 2, 3) if tier == "thorough" else (1, 2)
+    what = {0: ("notify", "nsync_note_notify (n)", "nsync_note_notify (n), nsync_note_free (P), nsync_note_notify (P), nsync_note_new (P)", 12),
+            1: ("free", "nsync_note_free (n)", "nsync_note_notify (P), nsync_note_free (P), nsync_note_notify (child), nsync_note_new (P)", 12),
+            2: ("new", "nsync_note_new (n, ...)", "nsync_note_notify (n), nsync_note_free (P), nsync_note_notify (P), nsync_note_new (P)", 6)}
+    for ak, (nm, acall, menu, nsites) in what.items():
+        for shape in shapes:
+            for tf in ((0, 1) if ak != 2 else (0,)):
+                for site in range(0, nsites):
+                    gs.append(Group(name=f"note.conc.{nm}.s{shape}t{tf}p{site}", srcs=S, entry="h_conc", no_dfcc=True, kind="bounded", timeout=900, unwind=8,
+                                    defines=["VP_SEQUENTIAL", "VP_REAL_SEM", f"VP_AKIND={ak}", f"VP_SHAPE={shape}", f"VP_TF={tf}", f"VP_SITE={site}"], object_bits=10, tags=tags,
+                                    bound=f"family {'grandparent -> ' if shape & 1 else ''}P -> n{' -> child' if shape & 2 else ''} built by the real nsync_note_new; thread A runs "
+                                          f"{acall} on the real note.c + dll.c, its first trylock {'fails' if tf else 'succeeds'}; at A's mutex operation number {site} "
+                                          f"other threads run one or two complete real calls out of {menu} (all ordered pairs); environment calls that would block are "
+                                          "not enabled; clock frozen",
+                                    min_obligations=50, cbmc_args=["--no-malloc-may-fail"],
+                                    functions=["notify", "note_notify_child", "nsync_note_notify", "nsync_note_free", "nsync_note_new", "nsync_note_notified_deadline_"]))
+    return gs
 
 
 # ---------------------------------------------------------------- sem_wait.c
